@@ -119,10 +119,14 @@ def r1_codes(run, F):
     # build_report kind table ranges
     br = F.body(ERR + "::build_report")
     m = None
+    from rules import origins as _or
     for mm in hirq.matches(br["hir"]):
-        if hirq.local_name_of(mm["scrut"]) == "code":
+        # the match over the numeric code: its scrutinee is (a local holding) the result of Error::code()
+        o = _or.origins(br["hir"], mm["scrut"], br.get("params", ()))
+        if ("call", ERR + "::code") in o and hirq.n_alts(mm) >= 2:
             m = mm
-    run.require(m is not None, "match code not found in build_report")
+            break
+    run.require(m is not None, "the match over self.code() was not found in build_report")
     rows = []
     for a in m["arms"]:
         p = hirq.strip_ref(a["pat"])
